@@ -480,7 +480,7 @@ theorem cache_transparent_asis_partial {σ} (I : Inner σ) (hI : InnerOK I) (max
     · intro hm
       have hnot := havoid m hop
       rw [← uncovered_eq] at hnot
-      simp only [uncovered, List.mem_filter, not_and, Bool.not_eq_true', Bool.not_eq_false'] at hnot
+      simp only [uncovered, List.mem_filter, not_and, Bool.not_eq_true'] at hnot
       simpa using hnot hm
   | _ => trivial
 
